@@ -80,7 +80,7 @@ def _part(e: ast.AST) -> str:
     if isinstance(t, ast.Call) and isinstance(t.func, ast.Attribute) and t.func.attr == "group" and t.args and isinstance(t.args[0], ast.Constant):
         return {1: "row", 2: "colstr"}.get(t.args[0].value, "?")
     if isinstance(t, ast.Subscript) and is_name(t.value, "well") and isinstance(t.slice, ast.Constant) and t.slice.value == 0:
-        return "row"
+        return "row[first letter only]"
     return "?"
 
 
@@ -140,6 +140,9 @@ def formulas(ctx, rule: str = "C08.formula") -> None:
             unknown = [s_ for s_ in p.symbols() if not any(s_ == k for k in want.symbols())]
             if p == want:
                 ctx.rep.holds(rule, c, f"canonical form {p.pretty()} == {text}", where=w, canon=p.pretty())
+            elif any("first letter only" in p.names.get(s_, "") for s_ in unknown):
+                ctx.rep.refuted(rule, c, f"{pkg} {'trough' if trough else 'plate'} position `{p.pretty()[:100]}` looks the row up by the first character of the ID (`well[0]`) instead of its "
+                                "whole letter part: an ID with a multi-letter row that does not exist in the labware (e.g. 'AB01') is numbered like row A instead of being rejected", where=w, canon=p.pretty(), expected=text)
             elif any("§" in p.names.get(s_, "") or "[?]" in p.names.get(s_, "") for s_ in unknown) and not _poly_shape_known(p):
                 ctx.rep.inconclusive(rule, c, f"position `{p.pretty()[:120]}` is outside the fragment (table lookup or unknown ID part)", where=w)
             else:
